@@ -37,6 +37,15 @@ const (
 	Auto Mode = "aut"
 )
 
+// an iota enum whose unexported constant lies outside the sequence of the exported ones
+type Rank int
+
+const (
+	R0 Rank = iota
+	R1
+	legacy Rank = 7
+)
+
 type Shape interface{ isShape() }
 
 type Circle struct {
@@ -62,6 +71,7 @@ type Payload struct {
 	N      int
 	Lvl    Level
 	Mode   Mode
+	Rk     Rank
 	First  Circle
 	S      Shape ` + "`json:\"shape\"`" + `
 	LL     [][]int
@@ -828,6 +838,7 @@ func Check() {
 		if vfBool("mode") {
 			v.Mode = Auto
 		}
+		v.Rk = []Rank{R0, R1, legacy}[vfChoice("rank", 3)]
 	case 1:
 		switch vfChoice("shape", 4) {
 		case 0:
@@ -884,6 +895,9 @@ func Check() {
 		{"shape", "{\"Kind\": \"Tags\", \"Data\": {\"R\": 1, \"L\": 1}}", "C04/value-of-the-wrong-json-kind-is-rejected"},
 		{"shape", "{\"Kind\": \"Circle\", \"Data\": {\"R\": 1, \"L\": 7}}", "C04/non-member-enum-value-is-rejected"},
 		{"Lvl", "0", "C04/non-member-enum-value-is-rejected"},
+		{"Rk", "2", "C04/non-member-enum-value-is-rejected"},
+		{"Ls", "[1, 9]", "C04/non-member-enum-value-is-rejected"},
+		{"Ls", "[0]", "C04/non-member-enum-value-is-rejected"},
 		{"Lvl", "4", "C04/non-member-enum-value-is-rejected"},
 		{"Mode", "\"off\"", "C04/non-member-enum-value-is-rejected"},
 		{"Mode", "1", "C04/value-of-the-wrong-json-kind-is-rejected"},
